@@ -24,6 +24,7 @@ use crate::group::{FileGroup, FileSubGroup};
 use crate::lock::FileLock;
 use crate::log::{Log, LogExt};
 use crate::path::Path;
+use crate::selector::PathSelector;
 use crate::util::{max_result, min_result, try_sort_by_key};
 use crate::{Error, TIMESTAMP_FMT};
 
@@ -763,10 +764,11 @@ fn should_keep(path: &Path, config: &DedupeConfig) -> bool {
             None => false,
         });
     let matches_any_path = || {
+        let paths = PathSelector::names_with_aliases(&config.root_aliases, path.to_string_lossy());
         config
             .keep_path_patterns
             .iter()
-            .any(|p| p.matches_path(&path.to_path_buf()))
+            .any(|p| paths.iter().any(|path| p.matches(path)))
     };
 
     matches_any_name || matches_any_path()
@@ -785,10 +787,11 @@ fn may_drop(path: &Path, config: &DedupeConfig) -> bool {
             })
     };
     let matches_any_path = || {
+        let paths = PathSelector::names_with_aliases(&config.root_aliases, path.to_string_lossy());
         config
             .path_patterns
             .iter()
-            .any(|p| p.matches_path(&path.to_path_buf()))
+            .any(|p| paths.iter().any(|path| p.matches(path)))
     };
 
     // Both kinds of patterns restrict the set of files, the same as in the `group` command.
